@@ -43,6 +43,8 @@ def checks_for(pid, wt, props):
 
 def confirm(pid, src=None, name=None):
     src = src or '/tmp/seed-%s' % pid
+    if src.isdigit():
+        src, name = '/tmp/seed%s-%s' % (src, pid), '%s-r%s' % (pid, src)
     name = name or pid
     patch = os.path.join(src, 'patch.diff')
     demo = os.path.join(src, 'demo.py')
